@@ -92,6 +92,7 @@ Lemma reader_step_calls_ok s b s' fx :
 Proof.
   unfold calls_ok. intros Hc Hb H. unfold reader_step in H.
   destruct (rd s) eqn:Erd; try discriminate.
+  - destruct (estab s); [|discriminate]. cbn [fix_acc fixed] in H. inversion H; subst; auto.
   - destruct (goon (st s)); inversion H; subst; auto.
   - destruct (nth_error (calls s) i) as [c|]; [destruct (c_tab c)|]; inversion H; subst; auto.
   - destruct (nth_error (calls s) i) as [c|] eqn:En; [|discriminate].
@@ -170,7 +171,7 @@ Qed.
 (* ---- lifting a session invariant to every session of every peer history ---- *)
 Section Lift.
   Variable I : sess -> Prop.
-  Hypothesis I_ok : forall id, I (mkSess Ok true true 0 0 0 0 [] [] R0 CIdle id true 0).
+  Hypothesis I_ok : forall id, I (mkSess Ok true true 0 0 0 0 [] [] RNone CIdle id true 0).
   Hypothesis I_rej : forall id, I (set_cl (new_sess id) C0).
   Hypothesis I_dialrej : forall id, I (set_sock (new_sess id) false).
   Hypothesis I_sid : forall s id, I s -> I (set_sid s id).
@@ -258,7 +259,7 @@ Definition cl_rank (c : cpc) : nat :=
   match c with CIdle => 0 | C7 => 1 | C6 => 2 | C5 => 3 | C4 => 4 | C3 => 5 | C2 => 6 | C1 => 7 | C0 => 8 end.
 Definition rd_rank (cur : status) (r : rpc) : nat :=
   match r with
-  | RNone | RDone => 0 | D8 => 1 | D6 => 2 | D5 _ => 3 | D4 _ => 4 | D3 _ => 5 | D2 _ => 6
+  | RDone => 0 | RNone => 13 | D8 => 1 | D6 => 2 | D5 _ => 3 | D4 _ => 4 | D3 _ => 5 | D2 _ => 6
   | D1 seen =>
       match seen with
       | ActiveClosing | ActiveClosed | PassiveClosing | PassiveClosed => 7
@@ -403,6 +404,7 @@ Ltac call_upd En :=
 Lemma reader_step_mu s b s' fx : reader_step fixed s b = Some (s', fx) -> mu s' < mu s.
 Proof.
   unfold reader_step. destruct (rd s) eqn:Erd; try discriminate.
+  - destruct (estab s); [|discriminate]. cbn [fix_acc fixed]. intros H; inversion H; subst; unfold mu; cbn; rewrite Erd; cbn; lia.
   - destruct (goon (st s)); intros H; inversion H; subst; unfold mu; cbn; rewrite Erd; cbn; lia.
   - destruct (nth_error (calls s) i) as [c|]; [destruct (c_tab c)|]; intros H; inversion H; subst;
       unfold mu; cbn; rewrite Erd; cbn; lia.
@@ -475,8 +477,8 @@ Proof.
     destruct (sstep s e) as [[s1 fx]|] eqn:E; [|discriminate].
     pose proof (internal_step_mu _ _ _ _ Hi E). specialize (IH s1 s' Ha H). cbn [length]. lia.
 Qed.
-Definition cfg_noabort : cfg := mkCfg true true false true.
-Definition cfg_nodup : cfg := mkCfg true true true false.
+Definition cfg_noabort : cfg := mkCfg true true false true true.
+Definition cfg_nodup : cfg := mkCfg true true true false true.
 
 Definition issue_and_write : list sevent := EIssue :: repeat (ECaller 0 false WOk) 4.
 
